@@ -320,3 +320,8 @@ def run(ctx):
     _ns = _sh.builder_setters(ctx, lambda b, m: b == 'ConnectOptionsBuilder' or (b in ('TokioClientBuilder', 'ThreadedClientBuilder') and m in ('with_connect_options', 'with_client_options')) or (b == 'MqttClientOptionsBuilder' and m == 'with_connect_timeout'), 'R-C07-7', 'the CONNECT reflects the configured connect options; the establishment deadline is the configured connect timeout')
     if ctx.config == 'all':
         ctx.floor(_ns, 17, 'builder setters this property depends on')
+    # ---- added after the second mutation sweep: "the CONNECT is still queued" means a CONNECT (predicate polarity, shared with C11)
+    from . import shared as _sh5
+    _n6 = _sh5.import_obligations(ctx, 'C11', lambda o: o['key'].endswith('early-data|is-connect'), 'R-C07-4', 'the unsolicited-CONNACK guard asks whether a CONNECT is waiting in the high-priority queue')
+    if ctx.config == 'all':
+        ctx.floor(_n6, 1, 'CONNECT-queued predicate obligation shared with C11')
